@@ -282,3 +282,33 @@ def _sample_split(rnd):
     mb._interface.need_data_split = rnd.random() < 0.8
     mb.max_packet_size = rnd.choice([32, 56])
     return {"self": mb, "data": bytes(rnd.getrandbits(8) for _ in range(rnd.choice(_SPLIT_LENS)))}
+
+
+# ---- SDP / SDPS over USB-HID: the data phase is cut into reports that carry every byte once, in order (spsdk/sdp/protocol/bulk_protocol.py) ----
+from spsdk.sdp.protocol.bulk_protocol import SDPBulkProtocol  # noqa: E402
+
+# _create_frame returns a pair: it is verified on its own below and expanded in place inside _create_frames (no tuple-typed results in the contract language)
+inline("spsdk.sdp.protocol.bulk_protocol:SDPBulkProtocol._create_frame")
+_SDP_LENS = (1, 2, 16, 31, 1019, 1020, 1021, 1023, 1024, 1025, 2047, 2048, 2049, 3061)
+
+
+@contract("spsdk.sdp.protocol.bulk_protocol:SDPBulkProtocol._create_frame")
+def _(self: SubObj(SDPBulkProtocol), data: Bytes(lo=1, hi=8192), report_id: OneOf(1, 2), report_size: Range(1, 1024), offset: Nat) -> Opaque():
+    requires(offset < len(data))
+    let(n=min(len(data) - offset, report_size))
+    ensures(result[0] == bytes([report_id]) + data[offset: offset + n] + bytes(report_size - n), label="report-id-then-the-next-bytes-then-zero-fill")
+    ensures(result[1] == offset + n, label="index-advances-by-what-the-report-carries")
+    pure()
+    sample_with(lambda rnd: (lambda d: {"self": object.__new__(SDPBulkProtocol), "data": d, "report_id": rnd.choice([1, 2]), "report_size": rnd.choice([1, 4, 1020, 1024]),
+                                        "offset": rnd.randrange(len(d))})(bytes(rnd.getrandbits(8) for _ in range(rnd.choice(_SDP_LENS)))))
+
+
+@contract("spsdk.sdp.protocol.bulk_protocol:SDPBulkProtocol._create_frames", split=2)
+def _(self: SubObj(SDPBulkProtocol), data: Union[tuple(Bytes(n) for n in _SDP_LENS)], report_id: OneOf(1, 2), report_size: OneOf(1020, 1024)) -> Opaque():
+    # data lengths are concrete (each a complete unrolling of the loop): around one, two and three reports of both report sizes
+    ensures(len(result) == (len(data) + report_size - 1) // report_size, label="as-many-reports-as-the-data-need")
+    ensures(all(len(f) == report_size + 1 and f[0] == report_id for f in result), label="every-report-has-the-id-and-the-full-size")
+    ensures(b"".join([f[1:] for f in result])[: len(data)] == data, label="reports-carry-every-byte-once-in-order")
+    pure()
+    sample_with(lambda rnd: {"self": object.__new__(SDPBulkProtocol), "data": bytes(rnd.getrandbits(8) for _ in range(rnd.choice(_SDP_LENS))),
+                             "report_id": rnd.choice([1, 2]), "report_size": rnd.choice([1020, 1024])})
